@@ -48,7 +48,19 @@ def constants():
         yield P([E(T('G', 'v', 1), ctx, leaves), E(T('r'), ctx, leaves)], 'const')
 
 
+def verbatim():
+    """Equations with one or several inline verbatim fragments: the fragments are opaque, every ordinary term keeps its edge."""
+    T, V, L, E, P = programs.Term, programs.Verb, programs.Lit, programs.Eq, programs.Program
+    for p in programs.sv():
+        yield p
+    frag = [V('0.25 * 2'), V('np.sqrt(4.0)'), V('self._W[t]'), V('1 + 1')]
+    for a, b in ((0, 1), (2, 3), (1, 2)):
+        yield P([E(T('C'), 'PH0 * PH1 + PH2 * PH3 + PH4', [frag[a], T('Y'), T('alpha', 'p'), T('H', 'v', -1), frag[b]])], 'SV2')
+        yield P([E(T('C'), 'PH0 + PH1 - PH2 * PH3', [frag[a], T('Y', 'v', 1), frag[b], T('e', 'e')]), E(T('W'), 'PH0', [T('C', 'v', -1)])], 'SV2')
+
+
 def strata(tier):
+    yield 'verbatim', verbatim
     yield 'const', constants
     yield 'S1', programs.s1
     yield 'S2', programs.s2
@@ -108,7 +120,7 @@ def check_program(p):
         if got != want:
             out.append(('edges-vs-script', sorted(want), sorted(got), 'in-edges of %s differ from the terms written on the right-hand side of %r' % (y, e.text())))
             continue
-        if all(isinstance(term.off, int) for term in e.terms_in_text_order()):
+        if all(isinstance(term.off, int) for term in e.terms_in_text_order()) and not any(isinstance(l, programs.Verb) for l in e.leaves):
             try:
                 reads = real_reads(e.text(), e.lhs.name, L, t)
             except OverflowError:
@@ -116,8 +128,9 @@ def check_program(p):
             if reads is not None and reads - got:
                 out.append(('read-without-edge', sorted(got), sorted(reads), 'the generated code of %s reads a cell that has no edge into it' % y))
             elif reads is not None and got - reads:
-                if any(isinstance(l, programs.Lit) for l in e.leaves):
-                    dead_by_constant[0] += 1  # e.g. 'Y = 2 or X': a literal operand short-circuits, X is dead code for all data
+                if any(isinstance(l, programs.Lit) for l in e.leaves) or re.search(r'\b(and|or|if|not)\b', e.ctx):
+                    # 'Y = 2 or X', 'Y = exp(not X) or {a}': an operand that is truthy/falsy for ALL data short-circuits - the term is dead code
+                    dead_by_constant[0] += 1
                 else:
                     out.append(('edge-never-read', sorted(reads), sorted(got), 'a term with an edge into %s is read on no branch outcome' % y))
     # no edge may point into a node that is not a left-hand side
@@ -152,7 +165,7 @@ def run_special(case):
 def blocks(tier, seed):
     out = [{'special': True}]
     for name, _ in strata(tier):
-        nb = {'const': 1, 'S1': 8, 'S2': 16, 'S3': 16 if tier == 'quick' else 96, 'S4': 24 if tier == 'quick' else 64}[name]
+        nb = {'verbatim': 1, 'const': 1, 'S1': 8, 'S2': 16, 'S3': 16 if tier == 'quick' else 96, 'S4': 24 if tier == 'quick' else 64}[name]
         for b in range(nb):
             out.append({'stratum': name, 'b': b, 'nb': nb})
     return out
